@@ -354,7 +354,7 @@ int main(int argc, char **argv)
 	long total = NLIST * 4, my_n;
 	char errpath[512];
 	nv_init(argc, argv);
-	maxlines = atoi(nv_arg(argc, argv, "lines", nv_thorough ? "5" : "4"));
+	maxlines = atoi(nv_arg(argc, argv, "lines", nv_thorough ? "6" : "4"));
 	trace_every = atoi(nv_arg(argc, argv, "trace", nv_thorough ? "9973" : "1009"));
 	vfs_put("f", "x\n", -1);
 	dir_init();
